@@ -243,6 +243,16 @@ seq_run(Params *p)
 
 	int      nops   = (int) W(4, 40);
 	uint32_t serial = 0;
+	// bodies are fixed up front so that subscriptions can name future ones
+	std::vector<std::string> future;
+	for (int i = 0; i < nops; i++) {
+		std::string b = rand_bytes(3);
+		b += (char) (0x80 | (i >> 6));
+		b += (char) (0x80 | (i & 0x3f));
+		if (W(0, 7) == 0)
+			b = b.substr(b.size() - 2); // short body
+		future.push_back(b);
+	}
 	for (int op = 0; op < nops; op++) {
 		int    kind = (int) W(0, 9);
 		size_t ci   = (size_t) W(0, (long) w.ctxs.size() - 1);
@@ -251,11 +261,7 @@ seq_run(Params *p)
 			MMsg m;
 			m.pub    = (int) W(0, np - 1);
 			m.serial = serial++;
-			m.body   = rand_bytes(3);
-			m.body += (char) (0x80 | (m.serial >> 6));
-			m.body += (char) (0x80 | (m.serial & 0x3f));
-			if (W(0, 7) == 0)
-				m.body = m.body.substr(m.body.size() - 2); // short body
+			m.body   = future[m.serial];
 			m.pub_seq = sim_steps();
 			w.msgs.push_back(m);
 			int      id  = (int) w.msgs.size() - 1;
@@ -277,8 +283,19 @@ seq_run(Params *p)
 			sim_stat("nontrivial", 1);
 		} else if (kind == 4 || kind == 5) { // subscribe
 			std::string t = rand_bytes(3);
-			if (W(0, 5) == 0 && !w.msgs.empty()) // exact body / longer than bodies
-				t = w.msgs[(size_t) W(0, (long) w.msgs.size() - 1)].body + (W(0, 1) ? "a" : "");
+			long sel = W(0, 9);
+			if (sel <= 3 && serial < future.size()) {
+				// aim at a message still to come: its whole body, its
+				// body plus one byte (longer than the body), or a prefix
+				const std::string &fb = future[(size_t) W((long) serial,
+				    (long) std::min(future.size() - 1, (size_t) serial + 3))];
+				if (sel == 0)
+					t = fb;
+				else if (sel == 1)
+					t = fb + (W(0, 1) ? "a" : std::string(1, '\0'));
+				else
+					t = fb.substr(0, (size_t) W(0, (long) fb.size()));
+			}
 			int rv = c.is_sock ? nng_sub0_socket_subscribe(w.sub, t.data(), t.size())
 			                   : nng_sub0_ctx_subscribe(c.ctx, t.data(), t.size());
 			if (rv != 0)
